@@ -50,8 +50,9 @@ func C06(c *Ctx) {
 
 // c06Long: the linear work bound on long, deeply nested inputs (300-900 bytes) where the
 // unmemoized parse (and the model) would need exponential time: only the real parser runs, under
-// Memoize+Debug, and the number of expression entries in its own Debug trace is compared with
-// #expressions x (len+1); Memoize and Memoize+Statistics must return the same value and errors.
+// Memoize+Statistics, and the number of choice expressions it actually evaluated (the sum of
+// Stats.ChoiceAltCnt: a cache hit books nothing) is compared with #choices x (len+1); Memoize with
+// and without Statistics must return the same value.
 func (c *Ctx) c06Long() {
 	rng := rand.New(rand.NewSource(c.Seed*53 + 6))
 	act := func(e *gast.Expr, id int) *gast.Expr { return gast.A(e, id, mon.Spec{R: 1}) }
@@ -96,42 +97,37 @@ func (c *Ctx) c06Long() {
 			ins = append(ins, b)
 		}
 		for ii, in := range ins {
-			for oi, o := range [][2]bool{{true, false}, {false, true}, {false, false}} {
+			for oi, st := range []bool{true, false} {
 				id := fmt.Sprintf("%s/L%d/%d", u.Pkg, ii, oi)
 				info[id] = u
-				cases = append(cases, &mon.Case{ID: id, Pkg: u.Pkg, Input: in, Memo: true, Debug: o[0], Stats: o[1], MaxExpr: 3000000, MaxEvents: 50})
+				cases = append(cases, &mon.Case{ID: id, Pkg: u.Pkg, Input: in, Memo: true, Stats: st, MaxExpr: 5000000, MaxEvents: 50})
 			}
 		}
 	}
 	res := bt.Run(cases, batch.RunOpts{})
-	for i := 0; i+2 < len(cases); i += 3 {
-		d, st, pl := res[cases[i].ID], res[cases[i+1].ID], res[cases[i+2].ID]
+	for i := 0; i+1 < len(cases); i += 2 {
+		st, pl := res[cases[i].ID], res[cases[i+1].ID]
 		u := info[cases[i].ID]
-		c.Eval(3)
-		if d == nil || st == nil || pl == nil || d.Dbg == nil {
+		c.Eval(2)
+		if st == nil || pl == nil {
 			c.Inconclusive("no_result")
 			continue
 		}
-		if d.Timeout || st.Timeout || pl.Timeout {
+		if st.Timeout || pl.Timeout {
 			c.Inconclusive("watchdog")
 			continue
 		}
-		evals := 0
-		for k, n := range d.Dbg.Kinds {
-			if strings.HasPrefix(k, "parse") && k != "parseRule" && (strings.HasSuffix(k, "Expr") || strings.HasSuffix(k, "Matcher")) {
-				evals += n
-			}
-		}
 		in := cases[i].Input
-		bound := u.G.NExprs * (len(in) + 1)
+		nch := u.G.KindsUsed()[gast.Choice]
+		bound := nch * (len(in) + 1)
 		c.CovAdd("long_inputs_checked", 1)
 		c.Distinct(fmt.Sprintf("long/%s/%d", u.Pkg, i))
-		if evals > bound {
-			c.Report(&Violation{Class: "C06/memo-bound-long", Summary: fmt.Sprintf("under Memoize(true) %d expressions were evaluated on an input of %d bytes, more than #expressions x (len+1) = %d x %d = %d; grammar %q", evals, len(in), u.G.NExprs, len(in)+1, bound, gast.Short(u.G)),
+		if st.ChoiceEvals > bound {
+			c.Report(&Violation{Class: "C06/memo-bound-long", Summary: fmt.Sprintf("under Memoize(true) %d choice expressions were evaluated (sum of Stats.ChoiceAltCnt) on an input of %d bytes, more than #choices x (len+1) = %d x %d = %d: some (expression, offset) pairs are evaluated more than once; grammar %q", st.ChoiceEvals, len(in), nch, len(in)+1, bound, gast.Short(u.G)),
 				Grammar: u.Text, Input: in, Case: cases[i]})
 		}
-		if d.Val != pl.Val || st.Val != pl.Val || d.ErrNil != pl.ErrNil || st.ErrNil != pl.ErrNil {
-			c.Report(&Violation{Class: "C06/long-options-differ", Summary: fmt.Sprintf("Memoize with Debug / Statistics / alone disagree on a long input; grammar %q", gast.Short(u.G)), Grammar: u.Text, Input: in, Case: cases[i]})
+		if st.Val != pl.Val || st.ErrNil != pl.ErrNil {
+			c.Report(&Violation{Class: "C06/long-options-differ", Summary: fmt.Sprintf("Memoize with and without Statistics disagree on a long input; grammar %q", gast.Short(u.G)), Grammar: u.Text, Input: in, Case: cases[i]})
 		}
 	}
 }
